@@ -30,3 +30,8 @@ for fn, w in (("UInt32ToStrBaseSign", 32), ("UInt64ToStrBaseSign", 64), ("SCPI_U
         harness="h_fmt.c", entry="h_" + fn, enforce=fn, contracts=["result.h"], defines=["W=%d" % w], loops=False,
         cbmc_flags=_u(w), timeout=3000, cost=15, tier="quick" if w == 32 else "thorough", mem_gb=12 if w == 32 else 40,
         what="shape contract used by every caller: result <= len, NUL if room, frame = the caller's buffer, first character is a digit or '-', decimal digit count"))
+
+for w in (32, 64):
+    JOBS.append(dict(name="fmt.sign.w%d" % w, props=["C14", "C07"], kind="PU", bound="digit loops unwound %d with unwinding assertions (complete), all values/bases/sign flags" % (w + 4),
+        harness="h_fmt.c", entry="h_fmt_sign", contracts=["common.h"], defines=["W=%d" % w, "FIXBASE=10"], loops=False, cbmc_flags=_u(w), timeout=1800, cost=15,
+        what="sign character rule over the full domain (base 10)"))
